@@ -339,7 +339,14 @@ class Engine:
         self.paths = 0
         self.covered_exits = 0
         st = State()
-        self.bind_params(st, contract, self.fn)
+        self.slice_ordinal = contract.extra.get("loop_slice")
+        if self.slice_ordinal is not None:
+            # LOOP-BODY CONTRACT: the unit under verification is loop k of the function; its free variables are the contract's params (arbitrary values
+            # of the declared sorts satisfying `requires`); the invariant is assumed at the head, one arbitrary iteration is executed (inv-preserve,
+            # noexc, pre@call obligations) and `ensures` is checked at the loop's exit.  Nothing before or after the loop is looked at.
+            self.bind_free_variables(st, contract)
+        else:
+            self.bind_params(st, contract, self.fn)
         pre = st.copy()
         st.old = pre
         for cls, a in list(st.alloc.items()):
@@ -367,9 +374,32 @@ class Engine:
         st.old = pre
         # vacuity guard: requires must be satisfiable
         self.cover_requires = self.feasible(st)
+        if self.slice_ordinal is not None:
+            loops = self.all_loops()
+            if self.slice_ordinal >= len(loops):
+                raise Unsupported("loop %d of %s not found" % (self.slice_ordinal, contract.qualname))
+            self.assumptions.add("%s: loop-body contract for loop %d only -- initialisation of the invariant and the code around the loop are not verified" % (contract.qualname, self.slice_ordinal))
+            for out, flow in self.exec_stmt(loops[self.slice_ordinal], st):
+                self.finish_path(out, flow)
+            return self.obligations
         for out, flow in self.exec_block(self.fn.body, st):
             self.finish_path(out, flow)
         return self.obligations
+
+    def bind_free_variables(self, st, contract):
+        for name, sort in contract.params.items():
+            if isinstance(sort, VModel):
+                st.env[name] = sort            # a model object given directly (e.g. a callable standing for a local function)
+                continue
+            v = sort.fresh(name)
+            st.env[name] = v
+            if isinstance(sort, REF):
+                b = self.alloc_bound(st, sort.cls)
+                st.assume(z3.And(v.ref >= 0 if contract.extra.get("nullable", {}).get(name) else v.ref > 0, v.ref < b))
+            if isinstance(sort, LIST):
+                st.assume(v.len >= 0)
+                st.aliases.add(name)
+        st.env["__params__"] = list(contract.params)
 
     def bind_params(self, st, contract, fn):
         names = [a.arg for a in fn.args.args]
@@ -698,7 +728,7 @@ class Engine:
             yield from self.exec_block(node.orelse, st2)
 
     # ---- loops
-    def loop_ordinal(self, node):
+    def all_loops(self):
         loops = []
 
         def visit(stmts):       # source (pre-)order: a loop before the loops nested in it, independent of line numbers (synthetic in the Cython front end)
@@ -712,7 +742,10 @@ class Engine:
                 for h in getattr(s_, "handlers", []) or []:
                     visit(h.body)
         visit(self.fn.body)
-        for i, l in enumerate(loops):
+        return loops
+
+    def loop_ordinal(self, node):
+        for i, l in enumerate(self.all_loops()):
             if l is node:
                 return i
         raise Unsupported("loop not found")
@@ -752,6 +785,9 @@ class Engine:
     def havoc_for_loop(self, st, body_stmts, extra_names=(), spec=None):
         names, fields, calls = self.assigned_in(body_stmts)
         names |= set(extra_names)
+        # names the loop contract declares as not rebound by the body although the syntactic scan cannot tell (e.g. `ws[i].write(x)` on a list of
+        # objects): not havocked; run_loop checks after every body path that the variable still holds the very same value
+        names -= set((spec or {}).get("preserves", ()))
         for n in sorted(names):
             if n in st.env:
                 v = st.env[n]
@@ -885,10 +921,11 @@ class Engine:
         # ghost snapshot: values at loop entry are available to invariants as entry(<name>)
         entry = st.copy()
         st.env["__entry%d__" % o] = entry
-        if implicit_inv is not None:
-            for tag, g in implicit_inv(st):
-                self.oblige(st, "inv-init", g, "L%d.%s" % (o, tag))
-        self.check_invariant(st, spec, o, "inv-init")
+        if getattr(self, "slice_ordinal", None) != o:
+            if implicit_inv is not None:
+                for tag, g in implicit_inv(st):
+                    self.oblige(st, "inv-init", g, "L%d.%s" % (o, tag))
+            self.check_invariant(st, spec, o, "inv-init")
         outer_dirty = set(st.dirty)
         _names, havocked = self.havoc_for_loop(st, body, extra_havoc, spec)
         havocked = set(havocked)
@@ -921,6 +958,9 @@ class Engine:
                 # soundness guard of the loop rule: everything the body writes must have been havocked at the loop head
                 raise Unsupported("loop %d of %s writes %s which the loop rule did not havoc" % (o, self.contract.qualname, sorted(missed)))
             s1.dirty = s1.dirty | outer_dirty | havocked
+            for n_ in spec.get("preserves", ()):
+                if s1.env.get(n_) is not head.env.get(n_):
+                    raise Unsupported("loop %d of %s rebinds %s which its contract declares preserved" % (o, self.contract.qualname, n_))
             if flow[0] in (Flow.NEXT, Flow.CONTINUE):
                 if post_body:
                     post_body(s1)
